@@ -26,7 +26,7 @@ PROP = "C15"
 READY = True
 DRIVER = "dm_token"
 LEAN_MODULES = ["DaskModel.Props.C15"]
-CASE_TIMEOUT_S = 30
+CASE_TIMEOUT_S = 120
 LEVEL_TEXT = ("Lean proof: for every delayed program (calls whose arguments nest Delayed values inside lists, tuples and "
               "dicts, shared sub-programs allowed) the graph assembled by merging the argument graphs and adding one task "
               "per call evaluates the program's key to exactly the value of the same program run eagerly (delayed_eval, by "
